@@ -19,6 +19,17 @@ TOL_POINT = 1e-9  # model/oracle point vs. implementation point, relative to the
 EPS_ANGLE = Fraction(1, 10**7)  # clauses of the acos-step validator (cosine of length/radius vs. r1.r3/|r1|^2)
 TOL_LEN = 1e-6  # lengths (the acos step is ill-conditioned near 0, pi, 2*pi)
 TWO_PI = 2 * math.pi
+EPS_DOUBLE = 2.220446049250313e-16
+
+
+def _len_tol(case: dict, expected: float) -> float:
+    """tolerance of a reported length.  Near the origin: TOL_LEN (absolute for lengths below 1).  For an arc placed far from the
+    origin (`far` = offset / radius) the radius vectors are differences of coordinates that carry eps*offset each, so the length
+    carries about eps * far relative (measured on 1200 far placements: at most 1.25 * eps * far); 16 * eps * far is demanded —
+    still below 6e-8 relative for the farthest placements, i.e. far tighter than TOL_LEN."""
+    if "far" in case:
+        return (1e-12 + 16 * EPS_DOUBLE * case["far"]) * expected
+    return TOL_LEN * max(1.0, expected)
 
 
 # ----------------------------------------------------------------------------- small vector helpers (floats)
@@ -125,7 +136,8 @@ class C08(core.Check):
         "arc_hist / mesh_hist: one Origin/Angle edge object (also inside an assembled Mesh) observed, its end vertices moved to "
         "other valid positions, observed again; curve_tf: OnCurve edges over linear/spline/discrete curves placed by translate/rotate/scale/mirror as method "
         "calls or as a transformation list; mesh: origin/angle arcs on the 12 edge positions of one or two stacked lofts in "
-        "general position, observed in the assembled mesh's edges section; poly/curve/simple: spline, polyLine, curve, line and project edges over random point sets; reject: "
+        "general position, observed in the assembled mesh's edges section; poly/curve/simple: spline, polyLine, curve, line and project edges over random point sets; far-from-origin: Angle / Origin / classic arcs of radius 0.3..10 "
+        "placed at UTM-like coordinates (offset/radius 1e2..1.6e7, |sin angle| >= 0.25), length within 16*eps*(offset/radius) of radius x angle; reject: "
         "angles outside (0, 2*pi), collinear arc points, a one-point polyline. Non-trivial = every case; distinct = "
         "different input."
     )
@@ -234,6 +246,32 @@ class C08(core.Check):
             psi = rng.uniform(0.1 * hi, 0.9 * hi)
         pt = lambda a: _add(C, _add(_mul(R * math.cos(a0 + sgn * a), e1), _mul(R * math.sin(a0 + sgn * a), e2)))
         return {"kind": "arc3_beyond" if beyond else "arc3", "p1": pt(0), "pb": pt(psi), "p2": pt(phi)}
+
+    def _far_case(self, rng: random.Random, which: str) -> dict:
+        """round 6b — an arc of block size (radius 0.3..10) placed far from the origin of the coordinate system (UTM-like
+        easting / northing / height: offset/radius 1e2..1.6e7): the reported length does not depend on where the arc is.
+        The sector / included angles keep |sin| >= 0.25 (the acos step loses accuracy like 1/sin next to 0, pi, 2 pi)."""
+        e1, e2, n = _frame(rng)
+        R = 10 ** rng.uniform(-0.5, 1)
+        off = [
+            rng.choice([1, -1]) * 10 ** rng.uniform(3, 6.7),
+            rng.choice([1, -1]) * 10 ** rng.uniform(3, 6.7),
+            rng.choice([1, -1]) * 10 ** rng.uniform(1, 3.5),
+        ]
+        rng.shuffle(off)
+        far = max(abs(x) for x in off) / R
+        ang = rng.choice([rng.uniform(0.4, 2.7), rng.uniform(3.6, 5.9)])
+        sgn = rng.choice([1, -1])
+        a0 = rng.uniform(0, TWO_PI)
+        C = _add(off, [rng.uniform(-5, 5) for _ in range(3)])
+        pt = lambda a: _add(C, _add(_mul(R * math.cos(a0 + sgn * a), e1), _mul(R * math.sin(a0 + sgn * a), e2)))
+        if which == "theta":
+            return {"kind": "theta", "p1": pt(0), "p2": pt(ang), "axis": _mul(rng.choice([1.0, 0.5, 2.0]), n), "theta": sgn * ang, "far": far}
+        if which == "origin":
+            ang = rng.uniform(0.4, 2.7)
+            return {"kind": "origin", "p1": pt(0), "p2": pt(ang), "origin": C, "flatness": 1.0, "far": far}
+        hi = ang if ang < math.pi else math.pi - 0.05
+        return {"kind": "arc3", "p1": pt(0), "pb": pt(rng.uniform(0.1 * hi, 0.9 * hi)), "p2": pt(ang), "far": far}
 
     def _poly_case(self, rng: random.Random) -> dict:
         n = rng.randint(2, 8)  # Spline/PolyLine data need at least two inner points
@@ -449,6 +487,9 @@ class C08(core.Check):
             cases.append(self._curve_tf_case(rng))
         for i in range(max(10, n // 10)):
             cases.append(self._mesh_case(rng, 1 + i % 2))
+        for _ in range(max(10, n // 12)):
+            for which in ("theta", "origin", "arc3"):
+                cases.append(self._far_case(rng, which))
         # malformed / boundary stream
         for th in [0.0, TWO_PI, -TWO_PI, 7.0, -6.5, TWO_PI + 1e-9]:
             c = self._theta_case(rng)
@@ -684,7 +725,7 @@ class C08(core.Check):
                 g = [s * kk for kk in k]
                 fv = lambda v: ",".join(core.rat(x) for x in v)
                 reqs.append(
-                    f"c08.vmid {fv(p1)} {fv(p2)} {fv(cstar)} {fv(au)} {fv(g)} {_vec(impl['third'])} {core.rat(EPS_VALID)}"
+                    f"c08.vmid {fv(p1)} {fv(p2)} {fv(cstar)} {fv(au)} {fv(g)} {_vec(impl['third'])} {core.rat(EPS_VALID + Fraction(64 * EPS_DOUBLE * case.get("far", 0.0)))}"
                 )
                 # ArcEdgeBase.is_valid of the model for the implementation's third point
                 reqs.append(f"c08.valid {_vec(case['p1'])} {_vec(case['p2'])} {_vec(impl['third'])}")
@@ -706,7 +747,7 @@ class C08(core.Check):
                 g = [(a + b) / 2 - cc for a, b, cc in zip(p1, p2, C)]
                 fv = lambda v: ",".join(core.rat(x) for x in v)
                 reqs.append(
-                    f"c08.vmid {fv(p1)} {fv(p2)} {fv(C)} {fv(nrm)} {fv(g)} {_vec(impl['third'])} {core.rat(EPS_VALID)}"
+                    f"c08.vmid {fv(p1)} {fv(p2)} {fv(C)} {fv(nrm)} {fv(g)} {_vec(impl['third'])} {core.rat(EPS_VALID + Fraction(64 * EPS_DOUBLE * case.get("far", 0.0)))}"
                 )
                 reqs.append(f"c08.valid {_vec(case['p1'])} {_vec(case['p2'])} {_vec(impl['third'])}")
             return reqs
@@ -903,6 +944,13 @@ class C08(core.Check):
             if not ok or len(nums) != 3 or max(abs(a - b) for a, b in zip(nums, expected_pt)) > 1e-8 + TOL_POINT * sc * 10:
                 bad(site, f"arc line {impl['desc']!r} does not show the middle point", impl["desc"], expected_pt)
 
+        far_tag = ":far-from-origin" if "far" in case else ""
+        far_txt = (
+            f" (placed {case['far']:.3g} radii from the origin of the coordinate system; tolerance 16*eps*{case['far']:.3g} relative)"
+            if "far" in case
+            else ""
+        )
+
         def chord_bound(p1, p2, name, rel=1e-9):
             ch = _norm(_sub(p1, p2))
             if not impl["length"] >= ch * (1 - rel):
@@ -931,11 +979,16 @@ class C08(core.Check):
                 )
             if not impl["valid"]:
                 bad("ArcEdgeBase.is_valid:proper-arc-dropped", f"theta={th}")
-            elif not abs(impl["length"] - R * abs(th)) <= TOL_LEN * max(1.0, R * abs(th)):
-                bad("AngleEdge.length", f"theta={th}: length {impl['length']}, radius*angle {R * abs(th)}", impl["length"], R * abs(th))
+            elif not abs(impl["length"] - R * abs(th)) <= _len_tol(case, R * abs(th)):
+                bad(
+                    "AngleEdge.length" + far_tag,
+                    f"theta={th}: length {impl['length']}, radius*angle {R * abs(th)}" + far_txt,
+                    impl["length"],
+                    R * abs(th),
+                )
             check_desc("AngleEdge.description", exp_m, sc)
             # acos of a cosine rounded at 1e-16 carries a relative error of about 1e-16/theta^2 into the length of a flat arc
-            chord_bound(p1, p2, "angle", rel=1e-9 + 4e-15 / (th * th))
+            chord_bound(p1, p2, "angle", rel=1e-9 + 4e-15 / (th * th) + 16 * EPS_DOUBLE * case.get("far", 0.0))
             return out
         if kind == "theta_bad":
             if "reject" not in impl:
@@ -966,10 +1019,10 @@ class C08(core.Check):
             ang = math.atan2(_norm(_cross(r1, r3)), _dot(r1, r3))
             if not impl["valid"]:
                 bad("ArcEdgeBase.is_valid:proper-arc-dropped", "origin edge")
-            elif not abs(impl["length"] - R * ang) <= TOL_LEN * max(1.0, R * ang):
-                bad("OriginEdge.length", f"length {impl['length']}, radius*angle {R * ang}", impl["length"], R * ang)
+            elif not abs(impl["length"] - R * ang) <= _len_tol(case, R * ang):
+                bad("OriginEdge.length" + far_tag, f"length {impl['length']}, radius*angle {R * ang}" + far_txt, impl["length"], R * ang)
             check_desc("OriginEdge.description", M, sc)
-            chord_bound(p1, p2, "origin", rel=1e-9 + 4e-15 / (ang * ang))
+            chord_bound(p1, p2, "origin", rel=1e-9 + 4e-15 / (ang * ang) + 16 * EPS_DOUBLE * case.get("far", 0.0))
             return out
         if kind == "origin_adj":
             if "reject" in impl or any(math.isnan(x) for x in impl.get("third", [0.0])):
@@ -1005,16 +1058,16 @@ class C08(core.Check):
                 if kind == "arc3_beyond"
                 else "arc_length_3point:length"
             )
-            if not abs(impl["direct"] - exp) <= TOL_LEN * max(1.0, exp):
-                bad(site, f"length {impl['direct']}, arc through the three points {exp}", impl["direct"], exp)
-            elif impl["valid"] and not abs(impl["length"] - exp) <= TOL_LEN * max(1.0, exp):
-                bad("ArcEdge.length", f"length {impl['length']}, arc through the three points {exp}", impl["length"], exp)
+            if not abs(impl["direct"] - exp) <= _len_tol(case, exp):
+                bad(site + far_tag, f"length {impl['direct']}, arc through the three points {exp}" + far_txt, impl["direct"], exp)
+            elif impl["valid"] and not abs(impl["length"] - exp) <= _len_tol(case, exp):
+                bad("ArcEdge.length" + far_tag, f"length {impl['length']}, arc through the three points {exp}" + far_txt, impl["length"], exp)
             if kind == "arc3":
                 check_desc("ArcEdge.description", case["pb"], _scale(case["pb"]))
                 area2 = _norm(_cross(_sub(case["p1"], case["pb"]), _sub(case["p2"], case["pb"])))
                 if not impl["valid"] and area2 >= 1e-6 and _norm(_sub(case["p1"], case["p2"])) >= 1e-4:
                     bad("ArcEdgeBase.is_valid:proper-arc-dropped", f"three-point arc, end points {_norm(_sub(case['p1'], case['p2'])):.3g} apart")
-            chord_bound(case["p1"], case["p2"], "arc")
+            chord_bound(case["p1"], case["p2"], "arc", rel=1e-9 + 16 * EPS_DOUBLE * case.get("far", 0.0))
             return out
         if kind == "arc3_bad":
             if impl["direct"] != "ValueError":
@@ -1149,6 +1202,8 @@ class C08(core.Check):
 
     def classify(self, case, impl):
         k = case["kind"]
+        if "far" in case:
+            return f"{k}:far-from-origin"
         if k == "theta":
             th = case["theta"]
             return f"theta:{'major' if abs(th) > math.pi else 'minor'}:{'+' if th > 0 else '-'}"
